@@ -117,3 +117,47 @@ func VerifH_C18_L2_substitution() {
 		vz.Cover("nested-value")
 	}
 }
+
+// VerifH_C18_L2_nestedContext: a value (explicit substitution, hence also an
+// option value or default, which reach the Job as substitutions) whose text
+// itself mentions a context variable. The statement does not say whether such
+// a mention is expanded, so no particular result is demanded - only that the
+// treatment is "ordered by source", not by accident of the variable's name: a
+// mention of a job-context variable and a mention of a task-context variable
+// (both lower-priority sources than the value that carries them) are treated
+// alike - both expanded, both left as text, or both emptied.
+func VerifH_C18_L2_nestedContext() {
+	jobVars := []string{"job.name", "job.namespace", "job.type"}
+	taskVars := []string{"task.name", "task.index_num", "task.retry_index"}
+	jv := jobVars[vz.Choice("jobVar", len(jobVars))]
+	tv := taskVars[vz.Choice("taskVar", len(taskVars))]
+	key := []string{"option.a", "zz.custom"}[vz.Choice("carrier", 2)]
+	task := variablecontext.TaskSpec{Name: "job-x-0", Namespace: "ns", RetryIndex: 0, ParallelIndex: execution.ParallelIndex{IndexNumber: pointer.Int64(3)}}
+	class := func(mention string) int {
+		rj := &execution.Job{}
+		rj.Namespace = "ns"
+		rj.Name = "job"
+		rj.UID = "u1"
+		rj.Spec.Type = execution.JobTypeAdhoc
+		rj.Spec.Substitutions = map[string]string{key: "run of ${" + mention + "}"}
+		spec := v1.PodSpec{Containers: []v1.Container{{Name: "c", Image: "${" + key + "}"}}}
+		got := SubstitutePodSpec(rj, spec, task).Containers[0].Image
+		ctx := variablecontext.ContextProvider.MakeVariablesFromJob(rj)
+		for k, v := range variablecontext.ContextProvider.MakeVariablesFromTask(task) {
+			ctx[k] = v
+		}
+		switch got {
+		case "run of " + ctx[mention]:
+			return 1 // expanded from the context
+		case "run of ${" + mention + "}":
+			return 2 // left as text
+		case "run of ":
+			return 3 // emptied
+		}
+		return 0
+	}
+	cj, ct := class(jv), class(tv)
+	vz.Assert(cj != 0 && ct != 0, "C18/L2/nested-mention-has-a-defined-treatment")
+	vz.Assert(cj == ct, "C18/L2/treatment-of-a-mention-does-not-depend-on-the-variable-name")
+	vz.Cover("nested-context-compared")
+}
